@@ -146,7 +146,20 @@ def parse (s : St) (line : String) : Except String (Option Op) :=
   | ["drain", _] => .ok none
   | ["errno", e] => match e.toNat? with | some e => .ok (some (.errno e)) | none => .error "bad-op"
   | ["ret", b] => .ok (some (.ret (b != "0")))
+  | ["xtell", h, name, pl] => do let m ← h? h; pure (some (.xtell m name (pl != "0")))
   | _ => .error "bad-op"
+
+/-- `foreign ctx|none <module operation…>`: the operation is issued by another thread -/
+def parseLine (s : St) (line : String) : Except String (Option Op) :=
+  match Driver.words line with
+  | "foreign" :: k :: rest =>
+    if rest.isEmpty || rest.head? == some "foreign" || rest.head? == some "xtell" || rest.head? == some "ret"
+        || rest.head? == some "reg" || rest.length < 2 then .error "bad-op"
+    else match parse s (" ".intercalate rest) with
+      | .error e => .error e
+      | .ok none => .error "bad-op"
+      | .ok (some op) => .ok (some (.foreign (k == "ctx") op))
+  | _ => parse s line
 
 def parseTok (tok : String) : BatchTok :=
   match tok.splitOn ":" with
@@ -174,7 +187,7 @@ def stepLine (c : Cfg) (line : String) : Cfg × List String :=
     | [_, p, t] => ({ c with st := { c.st with rx := (p, t) :: c.st.rx } }, [])
     | _ => (c, ["bad-op"])
   else
-  match parse c.st line with
+  match parseLine c.st line with
   | .error e => (c, [e])
   | .ok none => (c, [])
   | .ok (some op) =>
